@@ -4986,6 +4986,7 @@ def _svd_worker(a, full_matrices, compute_uv, overwrite_a, cutoff, qtotal_LR, in
     """
     chinfo = a.chinfo
     qtotal_L, qtotal_R = qtotal_LR
+    res_dtype = np.result_type(np.float32, a.dtype)  # integer input: the factors are floating point
     at = 0  # will be gradually increased, counting the number of singular values
     S = []
     if compute_uv:
@@ -5026,8 +5027,8 @@ def _svd_worker(a, full_matrices, compute_uv, overwrite_a, cutoff, qtotal_LR, in
                 new_leg_slices.append(at)
                 at_full += max(block.shape)
                 at += num
-                U_data.append(U_b.astype(a.dtype, copy=False))
-                VH_data.append(VH_b.astype(a.dtype, copy=False))
+                U_data.append(U_b.astype(res_dtype, copy=False))
+                VH_data.append(VH_b.astype(res_dtype, copy=False))
         else:
             assert not full_matrices
     if len(S) == 0:
@@ -5055,8 +5056,8 @@ def _svd_worker(a, full_matrices, compute_uv, overwrite_a, cutoff, qtotal_LR, in
         new_leg_charges = chinfo.make_valid(new_leg_charges)
         new_leg_R = LegCharge.from_qind(chinfo, new_leg_slices, new_leg_charges, inner_qconj)
         new_leg_L = new_leg_R.conj()
-    U = Array([a.legs[0], new_leg_L], a.dtype, qtotal_L)
-    VH = Array([new_leg_R, a.legs[1]], a.dtype, qtotal_R)
+    U = Array([a.legs[0], new_leg_L], res_dtype, qtotal_L)
+    VH = Array([new_leg_R, a.legs[1]], res_dtype, qtotal_R)
     U._data = U_data
     U._qdata = U_qdata
     VH._data = VH_data
